@@ -212,3 +212,31 @@ Definition run_slicenotif (t : list Z) : list Z :=
     end
   | _ => []
   end.
+
+(* ---------- the inverse bookkeeping of a slice assignment on a plain reference list ----------
+   `inv` = the targets that record "(owner, feature) refers to me" (EObject._inverse_rels, consulted by delete()).
+   EList.__setitem__ (slice) RELEASES the replaced elements and then LINKS the new ones (release_then_link, the code
+   since fix 98a932c); it used to link first and release afterwards (link_then_release). *)
+Definition zmem (x : Z) (l : list Z) : bool := memb Z.eqb x l.
+Definition release (old inv : list Z) : list Z := filter (fun x => negb (zmem x old)) inv.
+Definition release_then_link (old ys inv : list Z) : list Z := ys ++ release old inv.
+Definition link_then_release (old ys inv : list Z) : list Z := release old (ys ++ inv).
+
+(* tokens: order(0 release-then-link, 1 link-then-release) pa va pb vb |ys| ys.. |l| l..  (inv = l)
+   -> |l'| l'.. then for every element of l ++ ys whether it is recorded afterwards *)
+Definition run_sliceinv (t : list Z) : list Z :=
+  match t with
+  | order :: pa :: va :: pb :: vb :: ny :: rest =>
+    let ys := take (Z.to_nat ny) rest in
+    match drop (Z.to_nat ny) rest with
+    | nl :: rest' =>
+      let l := take (Z.to_nat nl) rest' in
+      let a := bound pa va in let b := bound pb vb in
+      let old := py_getslice a b l in
+      let inv' := if order =? 0 then release_then_link old ys l else link_then_release old ys l in
+      let l' := py_setslice a b ys l in
+      [zlen l'] ++ l' ++ map (fun x => if zmem x inv' then 1 else 0) (l ++ ys)
+    | [] => []
+    end
+  | _ => []
+  end.
